@@ -16,7 +16,7 @@
     [compile_straightline_correct] / [compile_correct]. *)
 From Coq Require Import ZArith NArith List Bool.
 From CB Require Import Common.IntN Common.IntNProofs Wasm.Syntax Wasm.SyntaxProofs Wasm.Sem Wasm.SemProofs
-     Wasm.Compile Wasm.Machine Wasm.KnownClasses Wasm.Engine Wasm.Witnesses Wasm.EngineProofs.
+     Wasm.Compile Wasm.Machine Wasm.KnownClasses Wasm.Engine Wasm.Witnesses Wasm.EngineProofs Wasm.NumOpsProofs.
 Import ListNotations.
 Local Open Scope Z_scope.
 
@@ -170,6 +170,28 @@ Proof.
               (conj (proj1 rem_s_machine_vs_spec_i64) (proj2 rem_s_machine_vs_spec_i64))))).
 Qed.
 Print Assumptions rem_s_min_m1_refuted.
+
+(** ** machine operators vs specification operators.  PARTIAL: add, sub, mul, div_u, rem_u, shl,
+    shr_u and all ten comparisons; div_s, rem_s (away from MIN,-1), and, or, xor, shr_s, rotl, rotr,
+    clz, ctz, popcnt, conversions are correspondence-only (design/C01.md). *)
+Theorem numops_agree_partial : forall t op x y,
+  In op proved_binops -> in_range (bits t) x -> in_range (bits t) y ->
+  match rs_binop (bits t) op (signed (bits t) x) (signed (bits t) y) x y with
+  | inr r => app_binop t op x y = Some (r mod 2 ^ bits t)
+  | inl _ => app_binop t op x y = None
+  end.
+Proof. exact rs_binop_agrees. Qed.
+Print Assumptions numops_agree_partial.
+
+Theorem relops_agree : forall t op x y, in_range (bits t) x -> in_range (bits t) y ->
+  rs_relop op (signed (bits t) x) (signed (bits t) y) x y = app_relop t op x y.
+Proof. exact rs_relop_all. Qed.
+Print Assumptions relops_agree.
+
+Theorem machine_views_are_signed : forall x,
+  (in_range 32 x -> as_i32 x = signed 32 x) /\ (in_range 64 x -> as_i64 x = signed 64 x).
+Proof. exact (fun x => conj (as_i32_signed x) (as_i64_signed x)). Qed.
+Print Assumptions machine_views_are_signed.
 
 (** non-vacuity: a module outside the classes on which specification and engine model agree *)
 Example outside_classes_agree :
